@@ -21,6 +21,29 @@ theorem C03_own_descriptor (os : List PV) (reg : Registry)
     consume reg (emitAll reg os).2 = os.map (fun o => (o, (descsOf o).map some)) :=
   consume_emitAll C03_guard_compares_descriptor os reg hn
 
+/-- The same with FAILING writes in between: a write may raise while the object is being packed, after any number
+    `k` of its descriptors were met and registered (their frames are on the stream, the object's frame is not), and
+    the caller carries on with the same writer. Every object whose write succeeded is still decoded with each of its
+    descriptors bound to itself — a later good record of a type whose first write attempt failed finds the descriptor
+    frame the failed attempt left behind. No hypothesis on the failed objects. -/
+theorem C03_own_descriptor_failed_writes (h : List (PV × Option Nat)) (reg : Registry)
+    (hn : ∀ e ∈ h, e.2 = none → NoInnerCollision (descsOf e.1)) :
+    consume reg (emitHist reg h).2 =
+      (h.filter (fun e => e.2.isNone)).map (fun e => (e.1, (descsOf e.1).map some)) :=
+  consume_emitHist C03_guard_compares_descriptor h reg hn
+
+/-- ... and reader and writer registries still agree at the end of such a history. -/
+theorem C03_registries_agree_failed_writes (h : List (PV × Option Nat)) (reg : Registry) :
+    consumeReg reg (emitHist reg h).2 = (emitHist reg h).1 :=
+  consumeReg_emitHist h reg
+
+/-- a history without failing writes is `emitAll` -/
+theorem C03_emitHist_all_ok (os : List PV) (reg : Registry) :
+    emitHist reg (os.map (fun o => (o, none))) = emitAll reg os := by
+  induction os generalizing reg with
+  | nil => rfl
+  | cons o os ih => simp only [List.map_cons, emitHist, emitAll, ih]
+
 /-- Definition before use: within the frames of one write, every descriptor frame precedes the object frame, and
     the object frame is last. -/
 theorem C03_desc_before_use (reg : Registry) (o : PV) :
@@ -74,6 +97,36 @@ theorem C03_write_matches_emit (st st' : WState) (o : PV) (fs : List Bytes) (h :
       · rfl
       · simp only [emit, List.length_append, List.length_map, List.length_cons, List.length_nil, hlen]
         split <;> simp <;> omega
+
+/-- ... and so does a write that raises: it registers what `emitFailed` says and writes one frame per descriptor
+    frame of the abstract view (plus the header of a fresh stream), no object frame. -/
+theorem C03_writeFailed_matches_emit (st st' : WState) (o : PV) (k : Nat) (fs : List Bytes)
+    (h : writeFailed st o k = some (st', fs)) :
+    st'.registry = (emitFailed st.registry o k).1 ∧
+    fs.length = (if st.headerWritten then 0 else 1) + (emitFailed st.registry o k).2.length := by
+  unfold writeFailed at h
+  cases hd : (newDescs st.registry ((descsOf o).take k)).2.mapM (fun d => (toM (.desc d)).map Msgpack.enc) with
+  | none => simp [hd] at h
+  | some dframes =>
+    simp only [hd, Option.some.injEq, Prod.mk.injEq] at h
+    obtain ⟨h1, h2⟩ := h
+    subst h1 h2
+    have hlen : dframes.length = (newDescs st.registry ((descsOf o).take k)).2.length := mapM_some_length _ _ _ hd
+    constructor
+    · rfl
+    · simp only [emitFailed, List.length_append, List.length_map, hlen]
+      split <;> simp
+
+/-- a byte-level history without failing writes is `writeAll` -/
+theorem C03_writeHist_all_ok (os : List PV) (st : WState) :
+    writeHist st (os.map (fun o => (o, none))) = writeAll st os := by
+  induction os generalizing st with
+  | nil => rfl
+  | cons o os ih =>
+    simp only [List.map_cons, writeHist, writeAll]
+    cases write st o with
+    | none => rfl
+    | some r => simp [ih]
 
 /-- Several writers open at the same time: the frames of writer i in an interleaved history are the frames of the
     projection of the history to writer i run alone — what one writer has emitted never suppresses what another
@@ -130,3 +183,12 @@ theorem C03_inner_collision_counterexample :
 open C03_witness in
 example : (consume [] (emitAll [] [.record dA [], .record dB [], .record dA []]).2).map (·.2) =
     [[some dA], [some dB], [some dA]] := by decide
+
+-- non-vacuity for failing writes: the first write of `dA` fails after its descriptor was registered; the good record
+-- that follows emits no second descriptor frame and is decoded with `dA`; a failed holder registers only its own
+open C03_witness in
+example : ((emitHist [] [(.record dA [], some 1), (.record dA [], none)]).2.map
+    (fun f => match f with | .desc d => some d | .obj _ => none)) = [some dA, none] := by decide
+open C03_witness in
+example : (consume [] (emitHist [] [(.record dA [], some 1), (.record dA [], none), (holder, some 1),
+    (.record dB [], none)]).2).map (·.2) = [[some dA], [some dB]] := by decide
